@@ -12,15 +12,16 @@ SIZES = {
     # (synth scenarios, steps each, micro BFS scenarios, shipped steps,
     #  generated scenarios)
     "quick": dict(n_synth=320, steps=320, n_micro=40, shipped_steps=300,
-                  n_gen=10, bfs_cap=1500),
+                  n_gen=10, bfs_cap=1500, n_large=2, n_ring=24),
     "thorough": dict(n_synth=6000, steps=700, n_micro=900,
-                     shipped_steps=2000, n_gen=120, bfs_cap=8000),
+                     shipped_steps=2000, n_gen=120, bfs_cap=8000, n_large=16, n_ring=600),
 }
 BFS_SHIPPED = {"quick": ["tiny", "tiny-hard"],
                "thorough": ["tiny", "tiny-hard", "tiny-small", "small",
                             "small-honeypot", "small-linear"]}
 GEN_SMALL = ["tiny-gen", "tiny-gen-rgoal", "small-gen", "small-gen-rgoal",
              "medium-gen"]
+GEN_LARGE = ["huge-gen", "pocp-1-gen", "large-gen", "pocp-2-gen"]
 
 
 def build_cases(tier):
@@ -36,6 +37,10 @@ def build_cases(tier):
         cases.append(("shipped_bfs", n))
     for i in range(z["n_gen"]):
         cases.append(("generated", i))
+    for i in range(z.get("n_large", 2)):
+        cases.append(("generated_large", i))
+    for i in range(z.get("n_ring", 24)):
+        cases.append(("ring", i))
     return cases
 
 
@@ -53,6 +58,7 @@ def episode(prop, mon, subj, rng, nsteps, acc):
     kinds = ["attacker", "adversarial", "mixed", "uniform"]
     pol = Policy(subj, rng, rng.choice(kinds))
     pool = []
+    probes = {}
     p_succeed = rng.choice([0.5, 0.7, 0.9])
     p_reset = rng.choice([0.0, 0.004, 0.02])
     p_look = {"C13": 0.5, "C04": 0.15, "C06": 0.3}.get(prop, 0.2)
@@ -116,8 +122,24 @@ def episode(prop, mon, subj, rng, nsteps, acc):
                 acc.violation("pooled_state_mutated", "pooled_state_mutated",
                               "a state object kept from an earlier step was "
                               "modified later", None)
+        if prop == "C13" and pool and rng.random() < 0.25:
+            # generative_step must be a function of (state, action, draw)
+            # only: repeat a look-ahead made when the state was pooled -
+            # possibly many steps, look-aheads and resets ago
+            ps, ph, pbytes = pool[rng.randrange(len(pool))]
+            for (j, s2, digest) in probes.get(id(ps), ())[:2]:
+                Tp = subj.gen(ps, j, s2, hist=ph)
+                mon.check_repeat(Tp, digest)
         if rng.random() < 0.08 and T is not None and T.ns_obj is not None:
             pool.append((T.ns_obj, subj.hist, T.ns_obj.tensor.tobytes()))
+            if prop == "C13":
+                pr = []
+                for _ in range(2):
+                    j = pol.choose(subj.lay.status(T.ns_obj.tensor))
+                    s2 = subj.seed_for(j, rng.random() < 0.8, rng)
+                    pr.append((j, s2, mon.digest(
+                        subj.gen(T.ns_obj, j, s2))))
+                probes[id(T.ns_obj)] = pr
             if len(pool) > 12:
                 pool.pop(rng.randrange(len(pool)))
         if prop == "C06" and rng.random() < 0.03:
@@ -191,6 +213,10 @@ def run(prop, tier, seed, shard, nshards):
                 sp = synth.synth(rng, tier)
                 subj = Subject(sp, route=sp.origin.split(":")[1], **modes)
                 episode(prop, mon, subj, rng, z["steps"], acc)
+            elif ctype == "ring":
+                sp = synth.ring(rng)
+                subj = Subject(sp, route=sp.origin.split(":")[1], **modes)
+                episode(prop, mon, subj, rng, z["steps"], acc)
             elif ctype == "micro":
                 sp = synth.micro(rng)
                 subj = Subject(sp, route=sp.origin.split(":")[1], **modes)
@@ -203,6 +229,13 @@ def run(prop, tier, seed, shard, nshards):
                 sp = corpus.shipped_spec(cid)
                 subj = Subject(sp, route="yaml", **modes)
                 bfs_case(prop, mon, subj, rng, acc, z["bfs_cap"])
+            elif ctype == "generated_large":
+                # state tensors with > 1000 entries, hundreds of actions
+                name = GEN_LARGE[cid % len(GEN_LARGE)]
+                sp, sc = corpus.generated_case(name, 2000 + cid)
+                subj = Subject(sp, route="nasim-generator", scenario=sc,
+                               **modes)
+                episode(prop, mon, subj, rng, z["steps"], acc)
             elif ctype == "generated":
                 name = GEN_SMALL[cid % len(GEN_SMALL)]
                 sp, sc = corpus.generated_case(name, 1000 + cid)
